@@ -245,3 +245,11 @@ PROPS["C17"] = dict(
                  "convertibilities, Omega loops; fst/snd/swap/curry/uncurry; 12 option laws; 16 result laws; 7 truth "
                  "tables, not, if_else; pi!(i, n) on tuple! for ALL arities n, positions i and payloads (modelled macros); the From "
                  "conversions of closed payloads are the (normal, when the payloads are) reducts of the constructor applications."))
+
+
+# deep-input suites additionally run in the unoptimised dev profile with debug assertions (the profile `cargo test` uses):
+# iterative code that silently becomes recursive, or a debug_assert! that walks a structure, only shows there
+PROPS["C18"]["suites_dev"] = ["deep"]
+PROPS["C19"]["suites_dev"] = ["deep"]
+PROPS["C12"]["suites_dev"] = ["ops:deep"]
+PROPS["C16"]["suites_dev"] = ["ops:deep"]
